@@ -23,7 +23,7 @@ func NewRecordRoute() *RecordRoute {
 func ParseRecordRoute(s string) (*RecordRoute, error) {
 	rr := NewRecordRoute()
 
-	for _, t := range strings.Split(s, ",") {
+	for _, t := range splitUnquoted(s, ',') {
 		recRoute, err := ParseRecRoute(t)
 		if err != nil {
 			return nil, err
@@ -40,7 +40,7 @@ func ParseRecordRoute(s string) (*RecordRoute, error) {
 func ParseRecRoute(s string) (*RecRoute, error) {
 	recRoute := &RecRoute{nameAddr: nil, rrParam: make([]KeyValue, 0)}
 
-	pos := strings.Index(s, ">")
+	pos := indexUnquoted(s, '>')
 	if pos == -1 {
 		return nil, errors.New("invalid syntax of rec-route")
 	}
